@@ -29,7 +29,7 @@ func main() {
 	if s := interp.SelfTestNum(); s != "" {
 		ev.Fatal("integer self-test: %s", s)
 	}
-	cfg := drive.Config{Prop: "C01", Families: []string{"seeds", "arith", "index", "facts", "axioms", "loops", "refine", "ptr", "calls", "coro", "io"},
+	cfg := drive.Config{Prop: "C01", Families: []string{"seeds", "arith", "index", "facts", "axioms", "loops", "refine", "ptr", "calls", "coro", "io", "pure", "iterate"},
 		MaxExec: 6000, MaxStates: 4096, MaxTuples: 2048}
 	if r.Thorough() {
 		cfg.MaxExec, cfg.MaxTuples = 20000, 4096
